@@ -178,27 +178,37 @@ Definition convert (fahr : bool) (q : Q) : Q :=
 Definition truthy (o : option Q) : bool :=
   match o with Some q => negb (Qeq_bool q 0) | None => false end.
 
-Definition backfill (hi cr : option Q) : option Q * option Q :=
-  if truthy hi && negb (truthy cr) then (hi, hi)
-  else if truthy cr && negb (truthy hi) then (cr, cr)
-  else (hi, cr).
+(* [legacy] = true is the code before commit 60747a2 (`if high and not critical`: truthiness, so a
+   present 0.0 counted as missing); false = the code as it is (`is not None` / `is None`) *)
+Definition backfill (legacy : bool) (hi cr : option Q) : option Q * option Q :=
+  if legacy then
+    if truthy hi && negb (truthy cr) then (hi, hi)
+    else if truthy cr && negb (truthy hi) then (cr, cr)
+    else (hi, cr)
+  else
+    match hi, cr with
+    | Some _, None => (hi, hi)
+    | None, Some _ => (cr, cr)
+    | _, _ => (hi, cr)
+    end.
 
-Definition front_reading (fahr : bool) (r : treading) : treading :=
+Definition front_reading (legacy fahr : bool) (r : treading) : treading :=
   let hi := option_map (convert fahr) (tr_high r) in
   let cr := option_map (convert fahr) (tr_crit r) in
-  let '(hi', cr') := backfill hi cr in
+  let '(hi', cr') := backfill legacy hi cr in
   {| tr_label := tr_label r; tr_cur := convert fahr (tr_cur r); tr_high := hi'; tr_crit := cr' |}.
 
-Definition sensors_temperatures (es : list tentry) (zs : list zentry) (fahr : bool) : outcome tdict :=
+Definition sensors_temperatures_at (legacy : bool) (es : list tentry) (zs : list zentry) (fahr : bool) : outcome tdict :=
   do raw <- temps_platform es zs;
-  Val (map (fun kv => (fst kv, map (front_reading fahr) (snd kv))) raw).
+  Val (map (fun kv => (fst kv, map (front_reading legacy fahr) (snd kv))) raw).
+Definition sensors_temperatures := sensors_temperatures_at false.
 
 (* ------------------------------------------------------------ sensors_fans *)
 Record fentry := { f_input : fres; f_name : fres; f_label : fres }.
 Record freading := { fr_label : bytes; fr_cur : Z }.
 
-(* [guarded_name] = false is the code as it is (name read outside the try block);
-   true = the proposed repair (notes/fixes/C19-fans-name.diff) *)
+(* [guarded_name] = true is the code as it is (name read inside the try block, commit e09e22a);
+   false = the code before that repair (name read after the try block) *)
 Fixpoint fans_loop (guarded_name : bool) (es : list fentry) (d : list (bytes * list freading))
   : outcome (list (bytes * list freading)) :=
   match es with
@@ -332,7 +342,8 @@ Definition battery_of (bf : batfiles) (ac0 ac : fres) : outcome (option battery)
   end.
 
 (* [listing] = os.listdir(POWER_SUPPLY_PATH): None when the directory does not exist.
-   [guarded_dir] = false is the code as it is; true = the proposed repair. *)
+   [guarded_dir] = true is the code as it is (FileNotFoundError -> None, commit 3a32a00);
+   false = the code before that repair. *)
 Definition sensors_battery (guarded_dir : bool) (listing : option (list (bytes * batfiles))) (ac0 ac : fres)
   : outcome (option battery) :=
   match listing with
